@@ -19,7 +19,10 @@ func (c TBCCase) String() string {
 
 var tbcWrappers = []string{"do", "while", "numfor", "genfor", "genfor-closing", "repeat", "function", "pcall", "coroutine", "coroutine-wrap"}
 var tbcExits = []string{"fall", "break", "goto-out", "goto-continue", "return", "return-call", "error-string", "error-table", "error-level2",
-	"yield-close", "yield-resume", "yield-in-pcall-close", "notclosable"}
+	"yield-close", "yield-resume", "yield-in-pcall-close", "notclosable",
+	// jumps that stay inside the scope of the pending variables (label in the same scope,
+	// directly after the declarations / after the jump): nothing of that scope is closed
+	"goto-retry-inside", "goto-skip-inside"}
 
 func tbcValid(c TBCCase) bool {
 	loop := c.Wrapper == "while" || c.Wrapper == "numfor" || c.Wrapper == "genfor" || c.Wrapper == "genfor-closing" || c.Wrapper == "repeat"
@@ -81,10 +84,18 @@ func (c TBCCase) Program() *Program {
 		// a nil and a false value are legal and are skipped
 		body = append(body, LocAttr("c0", "close", Nl()), LocAttr("c3", "close", mk(3, false)))
 	}
+	if c.Exit == "goto-retry-inside" {
+		body = append([]Stmt{Loc1("fuel", I(0))}, body...)
+		body = append(body, &Label{Name: "again"})
+	}
 	body = append(body, Emit(S("in")))
 	var exit []Stmt
 	switch c.Exit {
 	case "fall":
+	case "goto-retry-inside":
+		exit = []Stmt{Set(N("fuel"), B("+", N("fuel"), I(1))), IfS(B("<", N("fuel"), I(3)), Blk(&Goto{Label: "again"}), nil)}
+	case "goto-skip-inside":
+		exit = []Stmt{IfS(B("==", N("errobj"), N("errobj")), Blk(&Goto{Label: "tail"}), nil), Emit(S("not skipped"))}
 	case "break":
 		exit = []Stmt{&Break{}}
 	case "goto-out":
@@ -117,7 +128,7 @@ func (c TBCCase) Program() *Program {
 		inner := append([]Stmt{LocAttr("c7", "close", mk(7, false)), Emit(S("inner"))}, exit...)
 		body = append(body, &Do{Body: Blk(inner...)})
 		switch c.Exit {
-		case "fall", "yield-resume", "yield-close", "yield-in-pcall-close":
+		case "fall", "yield-resume", "yield-close", "yield-in-pcall-close", "goto-retry-inside":
 			body = append(body, Emit(S("after inner")))
 		}
 	} else {
@@ -125,6 +136,9 @@ func (c TBCCase) Program() *Program {
 	}
 	if c.Exit == "goto-continue" {
 		body = append(body, &Label{Name: "cont"})
+	}
+	if c.Exit == "goto-skip-inside" {
+		body = append(body, &Label{Name: "tail"}, Emit(S("tail")))
 	}
 	isTerminal := func() bool {
 		if len(body) == 0 {
